@@ -12,6 +12,13 @@ use std::time::Instant;
 
 pub const NSHARDS: usize = 16;
 
+static SHRINK_ITERS: std::sync::atomic::AtomicU32 = std::sync::atomic::AtomicU32::new(0);
+
+/// Overrides proptest's shrink iteration limit for expensive cases (0 = default).
+pub fn set_shrink_iters(n: u32) {
+    SHRINK_ITERS.store(n, std::sync::atomic::Ordering::Relaxed);
+}
+
 #[derive(Clone, Copy, Debug, PartialEq, Eq, Serialize, Deserialize)]
 pub enum Tier {
     Quick,
@@ -275,7 +282,10 @@ pub fn drive<S, F>(
     let mut cfg = Config::default();
     cfg.cases = cases;
     cfg.failure_persistence = None;
-    cfg.max_shrink_iters = 1500;
+    cfg.max_shrink_iters = match SHRINK_ITERS.load(std::sync::atomic::Ordering::Relaxed) {
+        0 => 1500,
+        n => n,
+    };
     cfg.rng_seed = RngSeed::Fixed(seed);
     cfg.max_global_rejects = 1 << 20;
     let rng = TestRng::from_seed(RngAlgorithm::ChaCha, &seed_bytes);
